@@ -255,7 +255,7 @@ func checkC06(c *Ctx, r *Report) {
 	checkIsContextExact(c, r, "C06.a")
 
 	// helpers whose meaning the rules above take for granted
-	ruleHelperShape(c, r, "C06.f", helperShape{Fn: "generator/swagen/swagtool.IsFieldRequired", AllowedCalls: []string{"strings.Split"}, MustConsts: []string{",", "required"},
+	ruleHelperShape(c, r, "C06.f", helperShape{Fn: "generator/swagen/swagtool.IsFieldRequired", AllowedCalls: []string{"strings.Split"}, MustConsts: []string{",", "required"}, OnlyConsts: []string{",", "required"},
 		Why: "a field/parameter is required iff `required` is one of the comma-separated rules of its validate tag"})
 	ruleHelperShape(c, r, "C06.e", helperShape{Fn: "(definitions.RouteMetadata).GetValueReturnType", AllowedCalls: []string{"builtin.len"}, MustFields: []string{"Responses"}, MustConsts: []string{"1", "0"},
 		Why: "the value return type is Responses[0] exactly when the method returns (value, error)"})
